@@ -89,7 +89,8 @@ class Watchdog:
     a progress counter; when the harness has been inside ONE real-code call for two ticks, `Blocked` is raised in the main
     thread (lock acquisition and condition waits are interruptible).  Outside real-code calls (driver subprocess, file
     I/O) nothing is raised."""
-    TICK = 2.5
+    TICK = 1.0
+    blocked = 0          # how often the bound was hit in this run (each costs 2-3 s: capped by the callers)
     progress = 0
     inside = False
     seen = (-1, 0)
@@ -109,11 +110,15 @@ class Watchdog:
                 cls.seen = (cls.progress, cls.seen[1] + 1)
                 if cls.seen[1] >= 2:
                     cls.seen = (-1, 0)
+                    cls.blocked += 1
                     raise Blocked()
             else:
                 cls.seen = (cls.progress, 0)
+        import atexit
         signal.signal(signal.SIGALRM, tick)
         signal.setitimer(signal.ITIMER_REAL, cls.TICK, cls.TICK)
+        # the timer must be gone before the interpreter resets the handler at exit (SIGALRM's default action kills)
+        atexit.register(lambda: signal.setitimer(signal.ITIMER_REAL, 0))
         cls.installed = True
 
     @classmethod
@@ -345,6 +350,8 @@ class Sim:
         from value / sync_request only), anything else `raised:<class>`; nothing propagates into the harness."""
         from rpyc.core.async_ import AsyncResultTimeout
         c = tok[0]
+        if Watchdog.blocked >= 12:
+            return "BLOCKED@%s" % fmt_t(self.now_ticks())     # (the real code keeps blocking: not called again in this run)
         Watchdog.enter()
         try:
             out = self._event(tok)
@@ -622,6 +629,8 @@ def run_call_case(case):
     looked at: slots, stored callbacks, log, whether the dispatch raised; and afterwards that the value stays available
     and nothing runs again"""
     expired, now, exc, specs = case
+    if Watchdog.blocked >= 4 and any(sp[2] for sp in specs):
+        return "BLOCKED: (not run: the dispatch of a reply with a re-entrant callback blocked %d times already)" % Watchdog.blocked
     sim = Sim(0)
     try:
         log = []
@@ -1381,7 +1390,7 @@ def correspondence(ctx):
                 c.disagreements.append(dict(case=call_case_line(cs), impl=a, model=b))
             else:
                 c.signatures.add(hash(a))
-        n_seeded = ctx.budget(20000, 400000)
+        n_seeded = ctx.budget(15000, 400000)
         for i in range(n_seeded):
             toks = gen_sequence(r, r.range(1, 14))
             t0 = r.choice([0, 0, 5, 1000])
@@ -1754,6 +1763,7 @@ def signature_of(msg):
 
 
 def oracle_search(ctx, corr, broken):
+    Watchdog.blocked = 0
     r = Rng(ctx.seed).fork("c15-search")
     deadline = _walltime.time() + ctx.budget(60, 600)
 
@@ -1846,6 +1856,7 @@ def known_probes(ctx):
 
 
 def replay(case):
+    Watchdog.blocked = 0
     out = dict(case=case)
     if case.get("multi"):
         toks = case["events"].split()
